@@ -43,6 +43,38 @@ import (
 
 func init() { hk.Register("c39", Run) }
 
+// Safety net for seeded / regressed servers: the process works from a deep scratch directory under /tmp (a relative
+// escape cannot reach /repo or /verif), and request paths that begin with two or more slashes always continue with
+// "tmp/c39-abs-guard/…" (the generator guarantees it, the harness refuses anything else), which the harness maps to a
+// per-process directory /tmp/c39g-<pid>: if a faulty server treats such a path as absolute it lands there, is reported as a
+// touched directory / served file outside /SB, and is removed again.
+const guardToken = "tmp/c39-abs-guard"
+
+var guardReal = fmt.Sprintf("tmp/c39g-%d", os.Getpid())
+
+var chdirOnce sync.Once
+
+func enterScratch() {
+	chdirOnce.Do(func() {
+		d, err := os.MkdirTemp("", "c39-cwd-")
+		if err == nil {
+			deep := filepath.Join(d, "d1", "d2", "d3", "d4", "d5", "d6")
+			if os.MkdirAll(deep, 0o755) == nil {
+				os.Chdir(deep)
+			}
+		}
+	})
+}
+
+// leadingSlashesOK: a path with >= 2 leading slashes must continue with the guard token and contain no ".." segment
+func leadingSlashesOK(p string) bool {
+	t := strings.TrimLeft(p, "/")
+	if len(p)-len(t) < 2 {
+		return true
+	}
+	return strings.HasPrefix(t, guardToken+"/") && countDotDot(p) == 0
+}
+
 // ---------------------------------------------------------------- case / observation types
 
 type Fld struct {
@@ -259,7 +291,20 @@ func runSeal(c Case) (any, error) {
 		nbfs := strconv.FormatInt(now+c.Mut.NbfOff, 10)
 		exps := strconv.FormatInt(now+c.Mut.ExpOff, 10)
 		nonce := []byte{9, 8, 7, 6, 5, 4, 3, 2, 1, 0, 1, 2}
-		requestURI := (&url.URL{Path: u.EscapedPath(), RawQuery: u.RawQuery}).String()
+		// the plaintext is taken from a URL the real sealer issues for the same request, so the forged URL has exactly
+		// Seal's payload format, whatever that is
+		ru, err := sealer.Seal(u)
+		if err != nil {
+			return nil, err
+		}
+		rq := ru.Query()
+		rn, _ := base64.RawURLEncoding.DecodeString(rq.Get("nonce"))
+		rc, _ := base64.RawURLEncoding.DecodeString(rq.Get("req"))
+		rpt, err := a.Open(nil, rn, rc, []byte(rq.Get("nbf")+":"+rq.Get("exp")))
+		if err != nil {
+			return nil, fmt.Errorf("harness could not open what Seal produced: %w", err)
+		}
+		requestURI := string(rpt)
 		ct := a.Seal(nil, nonce, []byte(requestURI), []byte(nbfs+":"+exps))
 		r := *u
 		r.Path = sealPrefix + u.EscapedPath()
@@ -439,6 +484,17 @@ func runHandle(c Case) (any, error) {
 		o.Skipped = "more .. segments than the sandbox is deep"
 		return o, nil
 	}
+	if !leadingSlashesOK(seen) {
+		o.Skipped = "path with several leading slashes that does not continue with the guard directory"
+		return o, nil
+	}
+	enterScratch()
+	// the guard token in the request becomes this process's guard directory (and back in what is reported)
+	p = strings.ReplaceAll(p, guardToken, guardReal)
+	seen = strings.ReplaceAll(seen, guardToken, guardReal)
+	guardAbs := "/" + guardReal
+	os.RemoveAll(guardAbs)
+	defer os.RemoveAll(guardAbs)
 	rootRel := toStr(c.RootRel)
 	if strings.Count(rootRel, "/") != 4 || strings.Contains(rootRel, "..") {
 		return nil, fmt.Errorf("root must be exactly 5 levels below the sandbox")
@@ -448,10 +504,22 @@ func runHandle(c Case) (any, error) {
 		return nil, err
 	}
 	defer os.RemoveAll(sb)
-	norm := func(abs string) string { return "/SB" + strings.TrimPrefix(abs, sb) }
+	norm := func(abs string) string {
+		if strings.HasPrefix(abs, guardAbs) {
+			return "/" + guardToken + strings.TrimPrefix(abs, guardAbs)
+		}
+		return "/SB" + strings.TrimPrefix(abs, sb)
+	}
 	root := filepath.Join(sb, rootRel)
 	if err := os.MkdirAll(root, 0o755); err != nil {
 		return nil, err
+	}
+	if strings.Contains(seen, guardReal) && c.Method == "GET" {
+		// bait for a GET that treats the path as absolute: the same file name exists under the guard directory
+		bait := "/" + strings.TrimLeft(seen, "/")
+		if os.MkdirAll(filepath.Dir(bait), 0o755) == nil {
+			os.WriteFile(bait, []byte("/"+guardToken+strings.TrimPrefix(bait, guardAbs)), 0o644)
+		}
 	}
 	for _, d := range c.Dirs {
 		if err := os.MkdirAll(filepath.Join(sb, toStr(d)), 0o755); err != nil {
@@ -467,7 +535,7 @@ func runHandle(c Case) (any, error) {
 			return nil, err
 		}
 	}
-	pin := strings.TrimLeft(seen, "/")
+	pin := strings.TrimLeft(strings.ReplaceAll(seen, guardReal, guardToken), "/")
 	o.Cleaned = fromStr(filepath.Clean(pin))
 	o.Joined = fromStr(filepath.Join("/SB/"+rootRel, pin))
 
@@ -519,9 +587,15 @@ func runHandle(c Case) (any, error) {
 		return nil, fmt.Errorf("bad mode")
 	}
 	before := snapshot(sb)
+	guardBefore := snapshot(guardAbs)
 	w := httptest.NewRecorder()
 	h.ServeHTTP(w, req)
 	after := snapshot(sb)
+	for pth, e := range snapshot(guardAbs) { // anything new under the guard directory is an escape
+		if _, old := guardBefore[pth]; !old {
+			after[pth] = e
+		}
+	}
 	o.Status = w.Code
 
 	// directories created (leaf ones) or written into
@@ -546,7 +620,7 @@ func runHandle(c Case) (any, error) {
 	}
 	var ts []string
 	for t := range touched {
-		ts = append(ts, norm(t))
+		ts = append(ts, strings.ReplaceAll(norm(t), guardReal, guardToken))
 	}
 	sort.Strings(ts)
 	for _, t := range ts {
@@ -565,6 +639,7 @@ func runHandle(c Case) (any, error) {
 func runGrpc(c Case) (any, error) {
 	var o Obs
 	o.Touched = [][]int{}
+	enterScratch()
 	rootRel := toStr(c.RootRel)
 	if strings.Count(rootRel, "/") != 4 || strings.Contains(rootRel, "..") {
 		return nil, fmt.Errorf("root must be exactly 5 levels below the sandbox")
